@@ -71,7 +71,18 @@ int _skinny_has_vec256(void)
     uint32_t ebx = 0;
     uint32_t ecx = 0;
     uint32_t edx = 0;
-    __cpuid(7, eax, ebx, ecx, edx);
+    if (__get_cpuid_max(0, 0) < 7)
+        return 0;
+    /* The CPU must have AVX and the OS must have enabled the XMM and
+       YMM register state (OSXSAVE, XCR0 bits 1 and 2) */
+    __cpuid(1, eax, ebx, ecx, edx);
+    if ((ecx & (1 << 27)) == 0 || (ecx & (1 << 28)) == 0)
+        return 0;
+    __asm__ __volatile__ ("xgetbv" : "=a"(eax), "=d"(edx) : "c"(0));
+    if ((eax & 0x06) != 0x06)
+        return 0;
+    /* AVX2 is reported in sub-leaf 0 of leaf 7, so ECX must be zero */
+    __cpuid_count(7, 0, eax, ebx, ecx, edx);
     detected = (ebx & (1 << 5)) != 0;
 #endif
 #endif
